@@ -120,51 +120,108 @@ def run_c11(facts, rep):
         return
     for x in (enc, dec, encp):
         rep.fn(x)
-    sc = _scatter_sites(facts.hir[enc])
-    ga = _gather_sites(facts.hir[dec])
+    from iterpos import IterPos
+    from r_slotmod import padd, pshow, patom
+
+    def positions(fn):
+        """stores `D[I] = V` of one function in position form:
+           I -> ('map', field, off) when I is MAP[p + off] (MAP a field whose name contains `map`)
+                ('pos', off)        when I is the position p + off itself
+           V -> ('seq', root, off) | ('zero',) | ('load', base, I') for T[I'] | ('other',)
+           plus the iteration space (start, end) of the enclosing loop when known"""
+        body = facts.hir[fn]
+        ip = IterPos(facts, body)
+        out = []
+
+        def idx_form(e):
+            e = strip(e)
+            b_ = ip.of(e)
+            if b_ is not None and b_[0] == "elem" and "map" in b_[1]:
+                return ("map", b_[1].rsplit(".", 1)[-1], b_[2], b_[3])
+            if b_ is not None and b_[0] == "pos":
+                return ("pos", b_[1], b_[2])
+            if e.get("k") == "Index":
+                base = strip(e["e"])
+                inner = idx_form(e["i"])
+                nm = base.get("name") if base.get("k") == "Field" else None
+                if nm and "map" in nm and inner is not None and inner[0] == "pos":
+                    return ("map", nm, inner[1], inner[2])
+            return None
+
+        def val_form(e):
+            e = strip(e)
+            if e.get("k") == "Lit":
+                return ("zero",) if str(e.get("v", "")).split("_")[0] in ("0", "0.0") else ("other",)
+            b_ = ip.of(e)
+            if b_ is not None and b_[0] == "elem":
+                return ("seq", b_[1], b_[2])
+            if e.get("k") == "Index":
+                i_ = idx_form(e["i"])
+                rl = root_local(e["e"])
+                if i_ is not None and i_[0] == "pos" and rl:
+                    return ("seq", "%s#%d" % (rl[1], rl[0]), i_[1])
+                if i_ is not None and i_[0] == "map" and rl:
+                    return ("load", rl[1], i_)
+            return ("other",)
+
+        for x in walk(body):
+            if x.get("k") != "Assign":
+                continue
+            lhs = strip(x["lhs"])
+            if lhs.get("k") == "Index":
+                out.append((idx_form(lhs["i"]), val_form(x["rhs"]), x, root_local(lhs["e"])))
+            else:
+                b_ = ip.of(lhs)
+                if b_ is not None and b_[0] == "elem":
+                    out.append((("pos", b_[2], b_[3]), val_form(x["rhs"]), x, None))
+        return out
+
+    enc_st = positions(enc)
+    dec_st = positions(dec)
+    sc = [t for t in enc_st if t[0] is not None and t[0][0] == "map"]
+    val = [t for t in sc if t[1][0] == "seq" and "values" in t[1][1]]
+    zer = [t for t in sc if t[1][0] == "zero"]
+    ga = [t for t in dec_st if t[1][0] == "load"]
     rep.floor(R, "scatter sites in encode", len(sc), 1)
     if not ga:
-        rep.violation(R, "scatter-gather", "decode no longer loads out[i] from temp[MAP[i]] through an index-map field "
+        rep.violation(R, "scatter-gather", "decode no longer loads out[p] from temp[MAP[p]] through an index-map field "
                       "while encode scatters through `%s`: decode is not the inverse of encode" %
-                      (sc[0][0] if sc else "?"), facts.loc(dec))
+                      (sc[0][0][1] if sc else "?"), facts.loc(dec))
     if not sc or not ga:
         return
+    g = ga[0]
+    for t in val:
+        key = "scatter-gather"
+        m_, v_ = t[0], t[1]
+        aligned = not padd(m_[2], v_[2], -1)                       # map position == value position
+        gi = g[1][2]
+        g_al = g[0] is not None and g[0][0] == "pos" and not padd(g[0][1], gi[2], -1) and gi[1] == m_[1]
+        if aligned and g_al:
+            rep.ok(R, key, "encode: data[%s[p]] = values[p]; decode: out[p] = temp[%s[p]] — same map, same position" %
+                   (m_[1], gi[1]), facts.loc(enc, t[2]), sample={"map": m_[1], "encode_line": t[2].get("l"), "decode_line": g[2].get("l")})
+        else:
+            rep.violation(R, key, "encode scatters values[p + %s] through `%s[p + %s]` but decode gathers out[p + %s] from "
+                          "`%s[p + %s]`: decode is not the inverse of encode" %
+                          (pshow(v_[2]), m_[1], pshow(m_[2]), pshow(g[0][1]) if g[0] else "?", gi[1], pshow(gi[2])), facts.loc(dec, g[2]))
+    if not val:
+        rep.violation(R, "scatter-gather", "encode no longer stores values[p] through the index map", facts.loc(enc))
+    # zero fill of the tail: positions value_size .. slots of the same map
     from facts import Defs
     edefs = Defs(facts.hir[enc])
-    val = [s for s in sc if any(x.get("k") == "Path" and x.get("name") == "values" for x in edefs.closure(s[2]))]
-    zer = [s for s in sc if strip(s[2]).get("k") == "Lit"]
-    g = ga[0]
-    # scatter/gather agreement
-    for s in val:
-        key = "scatter-gather"
-        r2 = strip(s[2])
-        src_idx = (local_of(r2["i"]) or (None, None))[1] if r2.get("k") == "Index" else "<bound by the loop>"
-        lv = _loop_var(s[3]) if s[3] is not None else None
-        same_iter = (s[1] == src_idx) and (lv is None or s[1] in (lv, "<bound by the loop>"))
-        conds = [s[0] is not None and s[0] == g[0], same_iter,
-                 g[3] is not None and g[1] in (_loop_var(g[3]), "<bound by the loop>") and g[2] == _loop_var(g[3])]
-        if all(conds):
-            rep.ok(R, key, "encode: data[%s[i]] = values[i]; decode: out[i] = temp[%s[i]] — same map, same index" %
-                   (s[0], g[0]), facts.loc(enc, s[4]), sample={"map": s[0], "encode_line": s[4].get("l"), "decode_line": g[4].get("l")})
-        else:
-            rep.violation(R, key, "encode scatters through `%s[%s]` (source index %s) but decode gathers through "
-                          "`%s[%s]` into out[%s]: decode is not the inverse of encode" %
-                          (s[0], s[1], src_idx, g[0], g[1], g[2]), facts.loc(dec, g[4]))
-    if not val:
-        rep.violation(R, "scatter-gather", "encode no longer stores values[i] through the index map", facts.loc(enc))
-    # zero fill of the tail
     if zer:
         z = zer[0]
-        lo, hi = _range_of(z[3]) if z[3] is not None else (None, None)
-        v0 = val[0] if val else None
-        names_lo = {x.get("name") for x in edefs.closure(lo)} if lo is not None else set()
-        lo_ok = lo is not None and strip(lo).get("k") != "Bin" and ("value_size" in names_lo or "values" in names_lo)
-        hi_ok = hi is not None and _field_of(hi) == "slots"
-        if z[0] == (v0[0] if v0 else None) and z[1] == _loop_var(z[3]) and lo_ok and hi_ok:
-            rep.ok(R, "zero-fill", "tail value_size..slots is zero-filled through the same map", facts.loc(enc, z[4]))
+        m_ = z[0]
+        start, end = m_[2], m_[3]
+        start_ok = any("values" in a for a in [a for mono in start for a in mono]) and \
+            all(c == 1 for c in start.values()) and len(start) == 1
+        end_ok = end is not None and len(end) == 1 and any(a.endswith(".slots") for mono in end for a in mono)
+        same_map = bool(val) and val[0][0][1] == m_[1]
+        if same_map and start_ok and end_ok:
+            rep.ok(R, "zero-fill", "tail value_size..slots is zero-filled through the same map", facts.loc(enc, z[2]))
         else:
             rep.violation(R, "zero-fill", "the zero-fill loop of encode does not cover value_size..slots through the "
-                          "same index map: short inputs are not zero-padded", facts.loc(enc, z[4]))
+                          "same index map (it covers %s..%s of `%s`): short inputs are not zero-padded" %
+                          (pshow(start), pshow(end) if end is not None else "?", m_[1]), facts.loc(enc, z[2]))
     else:
         whole = [x for x in walk(facts.hir[enc]) if x.get("k") == "MCall" and x.get("name") == "fill" and x["args"]
                  and strip(x["args"][0]).get("v") == "0" and (root_local(x["recv"]) or (0, ""))[1] == "destination"]
@@ -208,12 +265,14 @@ def run_c11(facts, rep):
             pos[id(x)] = i
         return pos.get(id(first), 0) < pos.get(id(second), 0)
     if te and td and val:
-        if order(enc, val[0][4], te[0][1]) and order(dec, td[0][1], g[4]):
+        if order(enc, val[0][2], te[0][1]) and order(dec, td[0][1], g[2]):
             rep.ok(R, "order", "scatter precedes the inverse transform; gather follows the forward transform", facts.loc(enc))
         else:
             rep.violation(R, "order", "scatter/transform or transform/gather are in the wrong order", facts.loc(enc))
     # coefficient encoding
-    stores = [x for x in walk(facts.hir[encp]) if x.get("k") == "Assign" and x["lhs"].get("k") == "Index"]
+    ipp = IterPos(facts, facts.hir[encp])
+    stores = [x for x in walk(facts.hir[encp]) if x.get("k") == "Assign" and
+              (x["lhs"].get("k") == "Index" or (ipp.of(x["lhs"]) or ("",))[0] == "elem")]
     red = [x for x in stores if any((callee(y) or {}).get("name") == "reduce" and
                                     _field_src(facts, encp, y) for y in walk(x["rhs"]))]
     if stores and len(red) == len(stores):
